@@ -25,7 +25,7 @@ Side regimes with their own mechanism keys (structural features of the pair, nev
  - '<real-inv|imaginary-inv>-placeholder-constants' (see C07): the harness predicts that the hard-coded 1e-18 / 1e18
    placeholders of the matrix-inversion real / imaginary test are visible (> ARTEFACT_MAX) in either input;
  - 'frequency-unit-dependence:<lstsq|pinv>': the pair is well-conditioned in natural units but, for at least one of
-   the two inputs, the design matrix in the library's own units (rad/s, unnormalised columns) is not (C07's gate fails)
+   the two inputs, the design matrix in the library's own units (rad/s, unnormalised columns) is not (RAW_GATE fails)
    and the transform rescales the frequencies.
 """
 import json
@@ -60,22 +60,39 @@ CHI_RTOL = 1e-4
 CHI_ATOL = 1e-12
 PAR_TOL = 1e-4
 TAU_TOL = 1e-10
-CNLS_RES_TOL = 1e-2   # cnls results are termination-limited, not rounding-limited (see C07)
+CNLS_RES_TOL = 1e-1   # cnls results are termination-limited, not rounding-limited (see C07): only gross changes are caught
 ARTEFACT_MAX = 1e-8
-# unit-free conditioning gate (same numbers as C07's gate, applied to the column-normalised statistics)
+# Conditioning gates.  On noisy (inconsistent) data the rounding error of a least-squares solution carries an extra
+# cond*residual term, so the thresholds are one decade tighter than C07's.
+#   FREE_GATE  unit-free: statistics of the column-normalised systems (invariant under a and b)
+#   RAW_GATE   the same statistics in the library's own units (rad/s, unnormalised columns) = C07's kind of gate
 FREE_GATE = {
-    "lstsq": {"kappan": 1e7, "kparn": 1e7, "condn": 1e10},
-    "pinv": {"kappan": 1e7, "kparn": 1e7, "condn": 1e10},
+    "lstsq": {"kappan": 1e6, "kparn": 1e6, "condn": 1e10},
+    "pinv": {"kappan": 1e6, "kparn": 1e6, "condn": 1e10},
+    "inv": {"condn": 1e2},
+    "cnls": c07.GATE["cnls"],
+}
+RAW_GATE = {
+    "lstsq": {"kappa": 1e6, "kpar": 1e6, "cond": 1e10},
+    "pinv": {"kappa": 1e6, "kpar": 1e6, "cond": 1e10},
     "inv": {"condn": 1e2},
     "cnls": c07.GATE["cnls"],
 }
 
 
-def free_gate(test, st):
+def _gate(test, st, table):
     kind = km.base_kind(test)
     if not (st["ratio"] <= c07.GATE["ratio"] and st["perdec"] <= c07.GATE["perdec"][kind] + 1e-9 and np.isfinite(st["dyn"])):
         return False
-    return all(st[k] <= v for k, v in FREE_GATE[km.solver_class(test)].items())
+    return all(st[k] <= v for k, v in table[km.solver_class(test)].items())
+
+
+def free_gate(test, st):
+    return _gate(test, st, FREE_GATE)
+
+
+def raw_gate(test, st):
+    return _gate(test, st, RAW_GATE)
 
 LIN_CELLS = c07.LIN_CELLS
 CNLS_CELLS = [("cnls", False, False, False), ("cnls", False, False, True)]
@@ -215,7 +232,7 @@ def check_pair(p):
     st1, tau1 = _stats(f1[o1], Z1[o1], p)
     st2, tau2 = _stats(f2[o2], Z2[o2], p)
     free_ok = free_gate(test, st1) and free_gate(test, st2)
-    raw_ok = c07.in_gate(test, st1) and c07.in_gate(test, st2)
+    raw_ok = raw_gate(test, st1) and raw_gate(test, st2)
     placeholder = max(st1["artefact"], st2["artefact"]) > ARTEFACT_MAX
     # judged: well-conditioned in natural units AND (also in the library's units, or the transform changes the frequency
     # unit - then the unit-dependence of the conditioning is itself the subject).  A pair that is ill-conditioned in the
@@ -404,5 +421,5 @@ def finalize(agg):
             inc.append(f"transform {t}: only {st.get(f'inside:transform:{t}', 0)} pairs inside the gate")
     info = {"inside_gate": st.get("inside_gate", 0), "outside_gate": st.get("outside_gate", 0),
             "tolerances": {"RES_TOL": RES_TOL, "CHI_RTOL": CHI_RTOL, "CHI_ATOL": CHI_ATOL, "PAR_TOL": PAR_TOL, "TAU_TOL": TAU_TOL},
-            "gate": FREE_GATE, "raw_gate": c07.GATE}
+            "gate": FREE_GATE, "raw_gate": RAW_GATE}
     return {"viol": [], "inconclusive": inc, "info": info}
